@@ -33,7 +33,9 @@ def field_alphabet(f: refdb.Field, seed: int, narrow_all: int = 0):
     if t == "STRING_LAU":
         return [lau(""), lau("Hi"), lau("Hi", False), lau("A@b c"), bytes([3, 1, 0xC3]), bytes([2, 0]), bytes([0, 0]), bytes([9, 1, 65]),
                 # text outside ASCII, in both encodings: the same letters with and without the accented one must stay distinct
-                bytes([6, 1]) + "Hi\u00e9".encode("utf-8"), bytes([6, 1]) + "Hi\u00fc".encode("utf-8"), lau("Hi\u00e9", False), lau("\u6e2f", False)]
+                bytes([6, 1]) + "Hi\u00e9".encode("utf-8"), bytes([6, 1]) + "Hi\u00fc".encode("utf-8"), lau("Hi\u00e9", False), lau("\u6e2f", False),
+                # the same text with and without trailing / leading separator characters
+                lau("Hi_"), lau("_"), lau("Hi__"), lau("_Hi"), lau("Hi "), lau(" ")]
     if t == "STRING_LZ":
         return [lz(""), lz("Hey"), lz("x y"), bytes([3, 65, 0xFF, 66, 0]), bytes([5, 65])]
     b = f.bits
